@@ -87,6 +87,14 @@ func NewMerkleBlockFromMsg(msg wire.MsgMerkleBlock) *PartialBlock {
 // an invalid block being parsed
 func (m *PartialBlock) ExtractMatches() *chainhash.Hash {
 
+	// restart the traversal so that a repeated call evaluates the message
+	// afresh instead of continuing where the previous call stopped
+	m.bad = false
+	m.bitsUsed = 0
+	m.hashesUsed = 0
+	m.matchedHashes = make([]*chainhash.Hash, 0)
+	m.matchedItems = make([]uint32, 0)
+
 	// if block is empty then no extraction can be made
 	if m.numTx == 0 {
 		return nil
